@@ -242,7 +242,9 @@ func batchEngine() {
 		if rng.Intn(4) == 0 {
 			sc.FailSync = []int{1 + rng.Intn(6)}
 		}
+		inFlight("batch", sc)
 		results, counters, groups, attempts, _, note := runBatchScenario(dir, sc)
+		inFlight("batch", nil)
 		rep.Programs++
 		rep.Evaluations += len(attempts)
 		if nontrivial {
